@@ -96,6 +96,7 @@ def worker(args):
             "evals": res.evals,
             "cases": res.cases,
             "nontrivial": res.nontrivial,
+            "case_counts": res.case_counts,
             "classes": dict(res.classes),
             "samples": res.samples,
             "failures": res.failures,
@@ -203,13 +204,14 @@ def run(mod, prop, tier, seed, scale, only, t0):
 
     per = {}
     for s in subs:
-        per[s.name] = {"evals": 0, "cases": 0, "nontrivial": set(), "classes": Counter(), "samples": [], "wall": 0.0}
+        per[s.name] = {"evals": 0, "cases": 0, "nontrivial": set(), "case_counts": {}, "classes": Counter(), "samples": [], "wall": 0.0}
     failures = {}
     for r in results:
         p = per[r["sub"]]
         p["evals"] += r["evals"]
         p["cases"] += r["cases"]
         p["nontrivial"] |= r["nontrivial"]
+        p["case_counts"].update(r["case_counts"])
         p["classes"].update(r["classes"])
         if len(p["samples"]) < 3:
             p["samples"].extend(r["samples"][: 3 - len(p["samples"])])
@@ -243,9 +245,10 @@ def run(mod, prop, tier, seed, scale, only, t0):
 
     # 4. evidence
     wall = time.monotonic() - t0
-    allnt = set()
-    for s in subs:
-        allnt |= {(s.name, d) for d in per[s.name]["nontrivial"]}
+    def ntcount(name):
+        return len(per[name]["nontrivial"]) + sum(per[name]["case_counts"].values())
+
+    total_nt = sum(ntcount(s.name) for s in subs)
     samples = []
     for s in subs:
         for smp in per[s.name]["samples"][:2]:
@@ -257,7 +260,7 @@ def run(mod, prop, tier, seed, scale, only, t0):
         "level": "exploration",
         "coverage": {
             "evaluations": sum(p["evals"] for p in per.values()) + reg_total,
-            "distinct_nontrivial": len(allnt),
+            "distinct_nontrivial": total_nt,
             "rule": getattr(mod, "RULE", ""),
             "samples": samples[:24],
             "exhaustive": False,
@@ -270,7 +273,7 @@ def run(mod, prop, tier, seed, scale, only, t0):
                     "name": s.name,
                     "cases": per[s.name]["cases"],
                     "evaluations": per[s.name]["evals"],
-                    "distinct_nontrivial": len(per[s.name]["nontrivial"]),
+                    "distinct_nontrivial": ntcount(s.name),
                     "rule": s.rule,
                     "exhaustive": bool(s.exhaustive),
                     "classes": dict(sorted(per[s.name]["classes"].items())),
@@ -293,7 +296,7 @@ def run(mod, prop, tier, seed, scale, only, t0):
 
     for s in subs:
         p = per[s.name]
-        log(f"[{prop}] {s.name}: cases={p['cases']} evals={p['evals']} nontrivial={len(p['nontrivial'])} cpu={p['wall']:.1f}s classes={dict(sorted(p['classes'].items()))}")
+        log(f"[{prop}] {s.name}: cases={p['cases']} evals={p['evals']} nontrivial={ntcount(s.name)} cpu={p['wall']:.1f}s classes={dict(sorted(p['classes'].items()))}")
     for what, n in sorted(known_hits.items()):
         print(f"KNOWN-FINDING: property={prop} {what} (x{n})")
     for bucket, path, msg in violations:
